@@ -219,6 +219,14 @@ func specMutations(f *Func) []Func {
 			out = append(out, c)
 		}
 	}
+	add(func(c *Func) bool { ok := c.Callback; c.Callback = false; return ok })
+	add(func(c *Func) bool { ok := c.Info; c.Info = false; return ok })
+	add(func(c *Func) bool { ok := c.Export; c.Export = false; return ok })
+	add(func(c *Func) bool { ok := c.DurNs != 0; c.DurNs = 0; return ok })
+	if f.Cat >= 0 {
+		// the signature of a declared catalogue function is fixed
+		return out
+	}
 	// drop each leaf parameter
 	nl := len(f.LeafParams())
 	for i := 0; i < nl; i++ {
@@ -233,11 +241,7 @@ func specMutations(f *Func) []Func {
 		}
 	}
 	add(func(c *Func) bool { ok := c.Variadic; c.Variadic = false; return ok })
-	add(func(c *Func) bool { ok := c.Callback; c.Callback = false; return ok })
-	add(func(c *Func) bool { ok := c.Info; c.Info = false; return ok })
-	add(func(c *Func) bool { ok := c.Export; c.Export = false; return ok })
 	add(func(c *Func) bool { ok := len(c.OptAs) > 0; c.OptAs = nil; return ok })
-	add(func(c *Func) bool { ok := c.DurNs != 0; c.DurNs = 0; return ok })
 	add(func(c *Func) bool { ok := c.HasErr; c.HasErr = false; return ok })
 	// flatten parameter objects into positional parameters where legal
 	add(func(c *Func) bool {
